@@ -682,7 +682,9 @@ def main():
 
 COMMON_TB = [
     "Coq 8.16.1 kernel incl. vm_compute (no native_compute)",
-    "gen/ translator (constants, regex ASTs via regexp/syntax, YAML, inventories)",
+    "gen/ translator (constants, regex ASTs via regexp/syntax, YAML, inventories; synchronisation skeletons and Open-function structure "
+    "(gen/skel.go); decision functions statement by statement into DecideLang terms (gen/decide.go): the meaning given to the source text "
+    "of each atom is trusted)",
     "extraction with ExtrOcamlBasic only + hand-written main.ml (character I/O); bounded by per-run kernel re-evaluation of a sample",
     "Go harness: in-process peers, segmentation/fault injection, canonicalisation of observables",
 ]
